@@ -8,7 +8,7 @@ Import ListNotations.
 Open Scope Z_scope.
 
 (* whatever _eval_const returns is what CPython computes, in every run-time environment that extends the
-   known bindings - inside the guard [in_guard] (no one-argument max/min, unary plus only on int/float)
+   known bindings - inside the guard [in_guard] (no one-argument max/min)
    and when the script does not rebind a builtin the evaluator interprets *)
 Theorem C03_eval_const_sound_partial : forall e cenv rho v,
   agrees cenv rho -> unshadowed rho -> in_guard cenv e = true ->
@@ -39,10 +39,14 @@ Theorem C03_minmax_single_refuted :
 Proof. exact minmax_single_refuted. Qed.
 Print Assumptions C03_minmax_single_refuted.
 
-Theorem C03_uadd_identity_refuted :
-  exists e v, eval_const [] e = CVal v /\ peval [] e = Ok (VInt 1) /\ v <> VInt 1.
-Proof. exact uadd_identity_refuted. Qed.
-Print Assumptions C03_uadd_identity_refuted.
+(* unary plus is Python's since the repair of F-C03-unary-plus-identity (`return +v`): replaces C03_uadd_identity_refuted;
+   the unary-plus clause of in_guard is gone *)
+Theorem C03_uadd_is_python :
+  (forall c a v, eval_const c a = CVal v -> eval_const c (EUn UAdd a) = lift (py_un UAdd v)) /\
+  eval_const [] e_uadd_bool = CVal (VInt 1) /\ peval [] e_uadd_bool = Ok (VInt 1) /\
+  eval_const [] (EUn UAdd (EStr [97;98])) = CFail KType /\ peval [] (EUn UAdd (EStr [97;98])) = Err TypeErr.
+Proof. exact uadd_is_python. Qed.
+Print Assumptions C03_uadd_is_python.
 
 Theorem C03_shadowed_builtin_refuted :
   exists e c rho v, agrees c rho /\ in_guard c e = true /\ eval_const c e = CVal v /\ peval rho e <> Ok v.
@@ -90,49 +94,78 @@ Theorem C03_literal_length_sound : forall cenv rho e n v,
 Proof. exact literal_length_sound. Qed.
 Print Assumptions C03_literal_length_sound.
 
-(* the environment across statements: shared list objects, discarded child dicts *)
-Theorem C03_shared_list_refuted :
-  firmware_outputs w_shared [0%nat] = Some [VInt 3; VList [VInt 1; VInt 0; VInt 1]] /\
-  python_outputs w_shared [0%nat] = Some [VInt 2; VList [VInt 1; VInt 0]] /\
-  firmware_outputs w_shared [1%nat] = python_outputs w_shared [1%nat].
-Proof. exact shared_list_refuted. Qed.
-Print Assumptions C03_shared_list_refuted.
+(* ---- the environment across statements.  The witnesses of the findings F-C03-shared-list-append,
+   -stale-reassign-in-branch (= -stale-after-try: a try body is a branch that runs), -stale-in-loop,
+   -remove-unknown-pops-first, -stale-glyph-row, after the repair (fix: child scopes copy the tracked lists; names written
+   in a block are forgotten after it and, for a loop, before it; append / remove with a run-time argument make the list
+   a run-time value): on EVERY path the firmware outputs what Python outputs, or the script is rejected (flash_pattern
+   and glyph need a constant).  These replace the theorems C03_shared_list_refuted, C03_stale_len_refuted,
+   C03_stale_loop_refuted, C03_remove_unknown_refuted, C03_stale_glyph_refuted; they are instances of
+   C03_env_fresh_partial below, spelled out *)
+Theorem C03_shared_list_repaired :
+  firmware_outputs w_shared [0%nat] = None /\ firmware_outputs w_shared [1%nat] = None /\ tblock [] w_shared [] [] = None /\
+  is_fresh w_shared_len = true /\
+  firmware_outputs w_shared_len [0%nat] = Some [VList [VInt 1; VInt 0]; VInt 2; VInt 2] /\
+  python_outputs w_shared_len [0%nat] = Some [VList [VInt 1; VInt 0]; VInt 2; VInt 2] /\
+  firmware_outputs w_shared_len [1%nat] = Some [VList [VInt 1; VInt 0]; VInt 3; VList [VInt 1; VInt 0; VInt 1]; VInt 3] /\
+  python_outputs w_shared_len [1%nat] = Some [VList [VInt 1; VInt 0]; VInt 3; VList [VInt 1; VInt 0; VInt 1]; VInt 3].
+Proof. exact shared_list_repaired. Qed.
+Print Assumptions C03_shared_list_repaired.
 
-Theorem C03_stale_len_refuted :
-  firmware_outputs w_stale [1%nat] = Some [VInt 3] /\ python_outputs w_stale [1%nat] = Some [VInt 6] /\
-  firmware_outputs w_stale [0%nat] = python_outputs w_stale [0%nat].
-Proof. exact stale_len_refuted. Qed.
-Print Assumptions C03_stale_len_refuted.
+Theorem C03_stale_len_repaired :
+  is_fresh w_stale = true /\
+  firmware_outputs w_stale [1%nat] = Some [VInt 6] /\ python_outputs w_stale [1%nat] = Some [VInt 6] /\
+  firmware_outputs w_stale [0%nat] = Some [VInt 3] /\ python_outputs w_stale [0%nat] = Some [VInt 3] /\
+  option_map (fun r => match r with (_, _, res, _) => res end) (tblock [] w_stale [] []) =
+    Some [SAssign n_s (EStr [97;98;99]); SIf [SAssign n_s (EStr [97;98;99;100;101;102])] []; SObs (OLen n_s)].
+Proof. exact stale_len_repaired. Qed.
+Print Assumptions C03_stale_len_repaired.
 
-Theorem C03_stale_loop_refuted :
-  firmware_outputs w_loop [2%nat] = Some [VInt 2; VInt 2; VInt 2] /\
-  python_outputs w_loop [2%nat] = Some [VInt 2; VInt 4; VInt 4].
-Proof. exact stale_loop_refuted. Qed.
-Print Assumptions C03_stale_loop_refuted.
+Theorem C03_stale_loop_repaired :
+  is_fresh w_loop = true /\
+  firmware_outputs w_loop [2%nat] = Some [VInt 2; VInt 4; VInt 4] /\ python_outputs w_loop [2%nat] = Some [VInt 2; VInt 4; VInt 4] /\
+  firmware_outputs w_loop [0%nat] = Some [VInt 2] /\ python_outputs w_loop [0%nat] = Some [VInt 2].
+Proof. exact stale_loop_repaired. Qed.
+Print Assumptions C03_stale_loop_repaired.
 
-Theorem C03_remove_unknown_refuted :
-  firmware_outputs w_remove [] = Some [VList [VInt 0]] /\ python_outputs w_remove [] = Some [VList [VInt 1]].
-Proof. exact remove_unknown_refuted. Qed.
-Print Assumptions C03_remove_unknown_refuted.
+Theorem C03_remove_unknown_repaired :
+  firmware_outputs w_remove [] = None /\ python_outputs w_remove [] = Some [VList [VInt 1]] /\
+  is_fresh w_remove_len = true /\
+  firmware_outputs w_remove_len [] = Some [VInt 1; VList [VInt 1]] /\ python_outputs w_remove_len [] = Some [VInt 1; VList [VInt 1]].
+Proof. exact remove_unknown_repaired. Qed.
+Print Assumptions C03_remove_unknown_repaired.
 
-(* a scalar reassigned in a branch reaches an LCD glyph bitmap with its stale value *)
-Theorem C03_stale_glyph_refuted :
-  firmware_outputs w_glyph [1%nat] = Some [VTuple [VInt 1; VInt 0; VInt 0; VInt 0; VInt 0; VInt 0; VInt 0; VInt 0]] /\
-  python_outputs w_glyph [1%nat] = Some [VTuple [VInt 2; VInt 0; VInt 0; VInt 0; VInt 0; VInt 0; VInt 0; VInt 0]] /\
-  firmware_outputs w_glyph [0%nat] = python_outputs w_glyph [0%nat] /\ is_fresh w_glyph = false.
-Proof. exact stale_glyph_refuted. Qed.
-Print Assumptions C03_stale_glyph_refuted.
+(* a scalar reassigned in a branch no longer reaches an LCD glyph bitmap with its stale value *)
+Theorem C03_stale_glyph_repaired :
+  firmware_outputs w_glyph [1%nat] = None /\ firmware_outputs w_glyph [0%nat] = None /\
+  is_fresh w_glyph_in = true /\
+  firmware_outputs w_glyph_in [1%nat] = Some [VTuple [VInt 2; VInt 0; VInt 0; VInt 0; VInt 0; VInt 0; VInt 0; VInt 0]] /\
+  python_outputs w_glyph_in [1%nat] = Some [VTuple [VInt 2; VInt 0; VInt 0; VInt 0; VInt 0; VInt 0; VInt 0; VInt 0]] /\
+  firmware_outputs w_glyph_in [0%nat] = Some [VTuple [VInt 1; VInt 0; VInt 0; VInt 0; VInt 0; VInt 0; VInt 0; VInt 0]] /\
+  python_outputs w_glyph_in [0%nat] = Some [VTuple [VInt 1; VInt 0; VInt 0; VInt 0; VInt 0; VInt 0; VInt 0; VInt 0]].
+Proof. exact stale_glyph_repaired. Qed.
+Print Assumptions C03_stale_glyph_repaired.
 
-(* inside the guard - the ghost flag [is_fresh] of the environment model: no assignment / append / remove to a name
-   with a known transpile-time value inside an if / while / for body, append and remove only with arguments known at
-   transpile time (and present, for remove), no variable named like a builtin the evaluator interprets, every folded
-   expression inside [in_guard] - the residual program with its baked-in constants produces, on EVERY control-flow
-   path (oracle [orc]: branches taken or not, loops run any number of times), exactly the observations of the source
-   program under the reference Python semantics, whenever Python defines them *)
+(* THE simulation theorem.  Its guard - the flag [is_fresh] of the environment model - no longer says anything about
+   where a name is written: what is left are the side conditions of single statements (no variable named like a builtin
+   the evaluator interprets; every expression the evaluator folds inside [in_guard]: no one-argument max / min; a remove
+   with a constant argument finds that constant in the tracked list - otherwise Python raises at run time).
+   Inside it the residual program with its baked-in constants produces, on EVERY control-flow path (oracle [orc]:
+   branches taken or not, loops run any number of times), exactly the observations of the source program under the
+   reference Python semantics, whenever Python defines them - whatever the branches and loop bodies assign, append or
+   remove *)
 Theorem C03_env_fresh_partial : forall p orc out,
   is_fresh p = true -> python_outputs p orc = Some out -> firmware_outputs p orc = Some out.
 Proof. exact env_fresh. Qed.
 Print Assumptions C03_env_fresh_partial.
+
+(* the invariant behind it, as the property states it: at every program point an execution reaches, everything the
+   constant environment knows is true of the run-time state (hence every fold through it - also len(name) inside a
+   translated right-hand side, C03_literal_length_sound - bakes in the run-time value) *)
+Theorem C03_env_agrees : forall p orc te st res rho out orc',
+  tblock [] p [] [] = Some (te, st, res, true) -> rblock p orc [] = Some (rho, out, orc') -> agrees (view st te) rho.
+Proof. exact env_agrees. Qed.
+Print Assumptions C03_env_agrees.
 
 Example C03_env_fresh_nonvacuous :
   is_fresh w_fresh = true /\
@@ -141,11 +174,12 @@ Example C03_env_fresh_nonvacuous :
 Proof. exact fresh_nonvacuous. Qed.
 Print Assumptions C03_env_fresh_nonvacuous.
 
-(* the four refutation witnesses are exactly outside that guard *)
-Theorem C03_witnesses_outside_guard :
-  is_fresh w_shared = false /\ is_fresh w_stale = false /\ is_fresh w_loop = false /\ is_fresh w_remove = false.
-Proof. exact witnesses_outside_guard. Qed.
-Print Assumptions C03_witnesses_outside_guard.
+(* the witnesses of the repaired findings that the transpiler still accepts are inside that guard *)
+Theorem C03_witnesses_inside_guard :
+  is_fresh w_shared_len = true /\ is_fresh w_stale = true /\ is_fresh w_loop = true /\ is_fresh w_remove_len = true /\
+  is_fresh w_glyph_in = true.
+Proof. exact witnesses_inside_guard. Qed.
+Print Assumptions C03_witnesses_inside_guard.
 
 (* module level: the first assignment of a name declares a C++ global, whose initialiser runs BEFORE setup().  The
    transpiler hoists the right-hand side into the initialiser only when it is constant AND name-free
@@ -191,64 +225,77 @@ Example C03_global_split_nonvacuous :
 Proof. exact split_nonvacuous. Qed.
 Print Assumptions C03_global_split_nonvacuous.
 
-(* ---- the flow guard (Lang/ConstFlow.v): writes to names with a known transpile-time value inside if / elif / else
-   branches and loop bodies are allowed; what is required is that every fold site (len(name), flash_pattern(name),
-   glyph rows, and the right-hand sides that feed them) bakes in exactly what a flow-sensitive environment justifies:
-   each branch of an if starts from the bindings before the if (never from what an EARLIER SIBLING branch assigned or
-   appended), names written in a branch or loop body are unknown afterwards and inside the loop.  Inside that guard
-   the residual program produces on EVERY control-flow path the observations of the source program *)
-Theorem C03_flow_partial : forall p orc out,
-  flow_ok p = true -> python_outputs p orc = Some out -> firmware_outputs p orc = Some out.
-Proof. exact flow_sound. Qed.
-Print Assumptions C03_flow_partial.
-
-(* satisfiable by an if / elif / else chain whose first branch re-assigns a string and a list that the later branches
-   fold - a program outside is_fresh; all three paths *)
-Example C03_flow_nonvacuous :
-  flow_ok w_chain = true /\ is_fresh w_chain = false /\
+(* ---- if / elif / else chains, sibling branches (what the flow guard C03_flow_partial used to single out is now inside
+   C03_env_fresh_partial): the first branch re-assigns a string and a list that the later branches fold - from the
+   snapshot; after the chain the string is a run-time value; all three paths *)
+Example C03_chain_nonvacuous :
+  is_fresh w_chain = true /\
   python_outputs w_chain [1%nat] = Some [VList [VInt 1; VInt 1; VInt 128; VInt 0]; VInt 10; VStr [111;118;101;114;104;101;97;116;101;100]] /\
   python_outputs w_chain [0%nat; 1%nat] = Some [VList [VInt 1; VInt 0; VInt 1; VInt 0]; VInt 7; VStr [119;97;114;109;105;110;103]] /\
-  python_outputs w_chain [0%nat; 0%nat] = Some [VList [VInt 1; VInt 0; VInt 1; VInt 0]; VInt 4; VStr [105;100;108;101]].
+  python_outputs w_chain [0%nat; 0%nat] = Some [VList [VInt 1; VInt 0; VInt 1; VInt 0]; VInt 4; VStr [105;100;108;101]] /\
+  is_fresh (w_chain ++ [SObs (OLen n_msg)]) = true /\
+  firmware_outputs (w_chain ++ [SObs (OLen n_msg)]) [1%nat] = python_outputs (w_chain ++ [SObs (OLen n_msg)]) [1%nat] /\
+  firmware_outputs (w_chain ++ [SObs (OLen n_msg)]) [0%nat; 1%nat] = python_outputs (w_chain ++ [SObs (OLen n_msg)]) [0%nat; 1%nat] /\
+  python_outputs (w_chain ++ [SObs (OLen n_msg)]) [0%nat; 1%nat] =
+    Some [VList [VInt 1; VInt 0; VInt 1; VInt 0]; VInt 7; VStr [119;97;114;109;105;110;103]; VInt 7].
 Proof. exact chain_nonvacuous. Qed.
-Print Assumptions C03_flow_nonvacuous.
+Print Assumptions C03_chain_nonvacuous.
 
-(* the store is NOT copied per branch: a list appended in the first branch is seen by the sibling branch
-   (the sibling form of finding F-C03-shared-list-append) - outside the flow guard *)
-Theorem C03_sibling_list_refuted :
-  firmware_outputs w_sibling_list [0%nat] = Some [VList [VInt 1; VInt 0; VInt 1]] /\
-  python_outputs w_sibling_list [0%nat] = Some [VList [VInt 1; VInt 0]] /\ flow_ok w_sibling_list = false.
-Proof. exact sibling_list_refuted. Qed.
-Print Assumptions C03_sibling_list_refuted.
+(* every branch works on its own copy of the tracked lists: a list appended in the first branch is not seen by the
+   sibling branch (replaces C03_sibling_list_refuted) *)
+Theorem C03_sibling_list_repaired :
+  firmware_outputs w_sibling_list [0%nat] = Some [VList [VInt 1; VInt 0]] /\
+  python_outputs w_sibling_list [0%nat] = Some [VList [VInt 1; VInt 0]] /\ is_fresh w_sibling_list = true.
+Proof. exact sibling_list_repaired. Qed.
+Print Assumptions C03_sibling_list_repaired.
 
 (* ---- function definitions: the body is parsed once, at the def, with every formal argument bound to a run-time
-   marker - whatever module-level constant has the same name - and runs at the call.  Inside the guard def_ok (flow
-   guard of the module statements; the body is justified by the bindings known at the def that no module statement
-   between the def and the call writes; no formal argument named like a builtin the evaluator interprets) the call
-   produces, FOR EVERY ARGUMENT VALUE and on every path, the observations Python produces *)
-Theorem C03_def_partial : forall prefix ps body mid vals orc outs,
-  def_ok prefix ps body mid = true ->
+   marker - whatever module-level constant has the same name - and with every name the script binds at more than one
+   site unknown; it runs at the call.  Inside the guard def_ok (the single-statement side conditions of the three
+   blocks; no formal argument named like a builtin the evaluator interprets - nothing about what the module re-assigns
+   between the def and the call any more) the call produces, FOR EVERY ARGUMENT VALUE and on every path, the
+   observations Python produces.  [post]: the module statements after the call (they count as binding sites) *)
+Theorem C03_def_partial : forall prefix ps body mid post vals orc outs,
+  def_ok prefix ps body mid post = true ->
   python_call_outputs prefix ps body mid vals orc = Some outs ->
-  firmware_call_outputs prefix ps body mid vals orc = Some outs.
+  firmware_call_outputs prefix ps body mid post vals orc = Some outs.
 Proof. exact def_sound. Qed.
 Print Assumptions C03_def_partial.
 
 Example C03_def_nonvacuous :
-  def_ok w_def_prefix [n_msg] w_def_body [SAssign n_v (EInt 1)] = true /\
+  def_ok w_def_prefix [n_msg] w_def_body [SAssign n_v (EInt 1)] [] = true /\
   python_call_outputs w_def_prefix [n_msg] w_def_body [SAssign n_v (EInt 1)] [VStr [97;98;99;100;101;102;103]] [] =
     Some ([], [VInt 7; VInt 2; VInt 1]) /\
-  python_call_outputs w_def_prefix [n_msg] w_def_body [SAssign n_v (EInt 1)] [VList [VInt 1]] [] = Some ([], [VInt 1; VInt 2; VInt 1]).
+  python_call_outputs w_def_prefix [n_msg] w_def_body [SAssign n_v (EInt 1)] [VList [VInt 1]] [] = Some ([], [VInt 1; VInt 2; VInt 1]) /\
+  option_map (fun r => match r with (_, rb, _) => rb end) (tdef w_def_prefix [n_msg] w_def_body [SAssign n_v (EInt 1)] []) =
+    Some [SObs (OLen n_msg); SEmit (VInt 2); SAssign n_q (EStr [120]); SEmit (VInt 1)].
 Proof. exact def_nonvacuous. Qed.
 Print Assumptions C03_def_nonvacuous.
 
-(* a module constant folded into a function body at the def is stale when the module re-assigns it before the call:
-   s = 'ab'; def f(q): mon.write(len(s)); s = 'abcdef'; f(0)  prints 2, Python prints 6 *)
-Theorem C03_def_time_global_refuted :
-  firmware_call_outputs w_def_prefix [n_q] [SObs (OLen n_s)] [SAssign n_s (EStr [97;98;99;100;101;102])] [VInt 0] [] = Some ([], [VInt 2]) /\
+(* s = 'ab'; def f(q): mon.write(len(s)); s = 'abcdef'; f(0)  (finding F-C03-def-time-global) prints 6, as Python: the
+   body reads the length at run time because the script binds s twice (replaces C03_def_time_global_refuted) *)
+Theorem C03_def_time_global_repaired :
+  firmware_call_outputs w_def_prefix [n_q] [SObs (OLen n_s)] [SAssign n_s (EStr [97;98;99;100;101;102])] [] [VInt 0] [] = Some ([], [VInt 6]) /\
   python_call_outputs w_def_prefix [n_q] [SObs (OLen n_s)] [SAssign n_s (EStr [97;98;99;100;101;102])] [VInt 0] [] = Some ([], [VInt 6]) /\
-  def_ok w_def_prefix [n_q] [SObs (OLen n_s)] [SAssign n_s (EStr [97;98;99;100;101;102])] = false /\
-  def_ok w_def_prefix [n_q] [SObs (OLen n_s)] [] = true.
-Proof. exact def_time_global_refuted. Qed.
-Print Assumptions C03_def_time_global_refuted.
+  def_ok w_def_prefix [n_q] [SObs (OLen n_s)] [SAssign n_s (EStr [97;98;99;100;101;102])] [] = true /\
+  option_map (fun r => match r with (_, rb, _) => rb end)
+    (tdef w_def_prefix [n_q] [SObs (OLen n_s)] [SAssign n_s (EStr [97;98;99;100;101;102])] []) = Some [SObs (OLen n_s)] /\
+  option_map (fun r => match r with (_, rb, _) => rb end)
+    (tdef w_def_prefix [n_q] [SObs (OLen n_s)] [] [SAssign n_s (EStr [97;98;99;100;101;102])]) = Some [SObs (OLen n_s)] /\
+  option_map (fun r => match r with (_, rb, _) => rb end) (tdef w_def_prefix [n_q] [SObs (OLen n_s)] [] []) = Some [SEmit (VInt 2)].
+Proof. exact def_time_global_repaired. Qed.
+Print Assumptions C03_def_time_global_repaired.
+
+(* what a function body writes is never known at module level after the def *)
+Example C03_def_written_is_volatile :
+  option_map (fun r => match r with (_, _, rm) => rm end)
+    (tdef [SAssign n_pat (EList [EInt 1; EInt 0])] [n_q] [SAppend n_pat (EName n_q)]
+          [SObs (OLen n_pat); SAssign n_pat (EList [EInt 1]); SObs (OLen n_pat)] []) =
+    Some [SObs (OLen n_pat); SAssign n_pat (EList [EInt 1]); SObs (OLen n_pat)] /\
+  def_ok [SAssign n_pat (EList [EInt 1; EInt 0])] [n_q] [SAppend n_pat (EName n_q)]
+         [SObs (OLen n_pat); SAssign n_pat (EList [EInt 1]); SObs (OLen n_pat)] [] = true.
+Proof. exact def_written_is_volatile. Qed.
+Print Assumptions C03_def_written_is_volatile.
 
 (* ---- tuple assignment  x1, ..., xn = e1, ..., en  (Lang/ConstTuple.v).  The transpiler evaluates every right-hand side -
    for the emitted code into a temporary __tmp_assign_k, for the constant environment into evaluated_values - BEFORE it
@@ -308,7 +355,7 @@ Print Assumptions C03_tuple_sequential_refuted.
    emitted - nodes resolved against the FINAL store and node heap - is the residual whose constants are the lists as
    they were at each call, for every script; and the simulation theorems hold for the two-phase pipeline *)
 Theorem C03_emitted_is_snapshot : forall p,
-  emitted false p = match tblock p [] [] with Some (_, _, res, _) => Some res | None => None end.
+  emitted false p = match tblock [] p [] [] with Some (_, _, res, _) => Some res | None => None end.
 Proof. exact emitted_is_snapshot. Qed.
 Print Assumptions C03_emitted_is_snapshot.
 
@@ -316,32 +363,32 @@ Theorem C03_ir_firmware_eq : forall p orc, firmware_outputs_ir false p orc = fir
 Proof. exact ir_firmware_eq. Qed.
 Print Assumptions C03_ir_firmware_eq.
 
-Theorem C03_ir_flow_partial : forall p orc out,
-  flow_ok p = true -> python_outputs p orc = Some out -> firmware_outputs_ir false p orc = Some out.
-Proof. exact ir_flow_sound. Qed.
-Print Assumptions C03_ir_flow_partial.
+Theorem C03_ir_fresh_partial : forall p orc out,
+  is_fresh p = true -> python_outputs p orc = Some out -> firmware_outputs_ir false p orc = Some out.
+Proof. exact ir_fresh_sound. Qed.
+Print Assumptions C03_ir_fresh_partial.
 
 (* the copy is forced: a node that aliases the tracked list (a shortcut for lists of plain ints) makes EVERY
-   flash_pattern(pat) call bake in the final contents of pat - straight-line, inside is_fresh - and lets a mutation in
-   a branch that is not taken reach an earlier call *)
+   flash_pattern(pat) call bake in the final contents of pat - straight-line, inside is_fresh.  (A mutation in a branch
+   that is not taken no longer reaches anything: the branch works on its own copy of the list) *)
 Theorem C03_node_alias_refuted :
   firmware_outputs_ir true w_flash_mut [] =
     Some [VList [VInt 0; VInt 1; VInt 0; VInt 128]; VList [VInt 0; VInt 1; VInt 0; VInt 128]; VList [VInt 0; VInt 1; VInt 0; VInt 128]] /\
   python_outputs w_flash_mut [] =
     Some [VList [VInt 1; VInt 0; VInt 1]; VList [VInt 1; VInt 0; VInt 1; VInt 0; VInt 128]; VList [VInt 0; VInt 1; VInt 0; VInt 128]] /\
   firmware_outputs_ir false w_flash_mut [] = python_outputs w_flash_mut [] /\ is_fresh w_flash_mut = true /\
-  firmware_outputs_ir true w_flash_branch [0%nat] = Some [VList [VInt 255; VInt 0; VInt 255]] /\
+  firmware_outputs_ir true w_flash_branch [0%nat] = Some [VList [VInt 255; VInt 0]] /\
   python_outputs w_flash_branch [0%nat] = Some [VList [VInt 255; VInt 0]] /\
-  firmware_outputs_ir false w_flash_branch [0%nat] = Some [VList [VInt 255; VInt 0]] /\ flow_ok w_flash_branch = true.
+  firmware_outputs_ir false w_flash_branch [0%nat] = Some [VList [VInt 255; VInt 0]] /\ is_fresh w_flash_branch = true.
 Proof. exact alias_refuted. Qed.
 Print Assumptions C03_node_alias_refuted.
 
-(* the flow guard counts every len(name) INSIDE a right-hand side / append / remove argument as a fold site (the real
-   translation folds it through the environment; ConstFlow.lens_agree): re-assigning s in a branch puts a later
-   q = len(s) + 1 outside the guard, re-assigning another name does not *)
+(* len(name) inside a right-hand side: after a branch that re-assigns s the environment does not know s any more, the
+   translation of  q = len(s) + 1  reads the length at run time - inside the guard, both paths *)
 Example C03_rhs_len_is_a_fold_site :
-  flow_ok (w_rhs_len [SAssign n_s (EStr [97;98;99;100])]) = false /\
-  flow_ok (w_rhs_len [SAssign n_msg (EStr [97;98;99;100])]) = true /\
-  python_outputs (w_rhs_len [SAssign n_msg (EStr [97;98;99;100])]) [1%nat] = Some [VInt 3].
+  is_fresh (w_rhs_len [SAssign n_s (EStr [97;98;99;100])]) = true /\
+  python_outputs (w_rhs_len [SAssign n_s (EStr [97;98;99;100])]) [1%nat] = Some [VInt 5] /\
+  firmware_outputs (w_rhs_len [SAssign n_s (EStr [97;98;99;100])]) [1%nat] = Some [VInt 5] /\
+  firmware_outputs (w_rhs_len [SAssign n_s (EStr [97;98;99;100])]) [0%nat] = Some [VInt 3].
 Proof. exact rhs_len_fold_site. Qed.
 Print Assumptions C03_rhs_len_is_a_fold_site.
